@@ -171,16 +171,19 @@ def run(tier, res, force_search=False):
                 o, h, f = probes.tas_like(nprs, dO, 283, 3), probes.tas_like(nprs, dH, 285, 4), probes.tas_like(nprs, dF, 287, 4)
                 # the neighbourhood is defined by the CALENDAR day of year, computed independently of the library
                 doyO, doyH, doyF = probes.indep_doy(dO), probes.indep_doy(dH), probes.indep_doy(dF)
-                for dd in (dO, dH, dF):
-                    probes.check_calendar(dd, problems, what="locality/calendar")
+                enc = probes.pick_kind(rng)  # the same days in one of the time encodings the library accepts
+                rawO, rawH, rawF = dO, dH, dF
+                dO, dH, dF = probes.present(rawO, enc), probes.present(rawH, enc), probes.present(rawF, enc)
+                for dd, shown in ((rawO, dO), (rawH, dH), (rawF, dF)):
+                    probes.check_calendar(dd, problems, what="locality/calendar", presented=shown)
                 corrected_doy = doyO if name == "DeltaChange" else doyF
                 cand = [i for i, d in enumerate(corrected_doy) if d in (1, 2, 365, 366, 59, 60)]
                 ti = rng.choice(cand) if cand and rng.random() < 0.5 else rng.randrange(corrected_doy.size)
                 t = int(corrected_doy[ti])
                 kind = rng.choice(["x3", "+1e6", "nan"])
                 case = {"what": "locality/" + name, "scenario": scen, "L": L, "S": S, "target_index": ti, "target_doy": t, "perturbation": kind,
-                        "startO": str(dO[0]), "startH": str(dH[0]), "startF": str(dF[0]), "nO": int(dO.size), "nH": int(dH.size), "nF": int(dF.size),
-                        "leap": leap, "seed": C.seed()}
+                        "startO": str(rawO[0]), "startH": str(rawH[0]), "startF": str(rawF[0]), "nO": int(dO.size), "nH": int(dH.size), "nF": int(dF.size),
+                        "leap": leap, "seed": C.seed(), "time_encoding": enc}
                 if scen.startswith("reconf"):
                     L0 = L if scen == "reconf-step" else L + rng.choice([10, 30])
                     # a stale (larger) step is what would widen the neighbourhood: prefer a larger step at construction
